@@ -1,5 +1,5 @@
 (* Props/C07.v -- property C07: budget limits are enforced exactly and the report is accurate. *)
-From SS Require Import Model.Budget Proofs.BudgetCounts.
+From SS Require Import Model.Budget Proofs.BudgetCounts Model.Expand Proofs.BudgetTree.
 Local Open Scope N_scope.
 
 (* The report of an accepted stream equals independent counts (plain folds) of the event list. *)
@@ -107,3 +107,16 @@ Proof. exact perdoc_after_skip_is_fresh. Qed.
 Check C07_per_document_skip_fresh : forall e,
   e_per_document e = true -> document_started_after_skip e = fresh_document_state e.
 Print Assumptions C07_per_document_skip_fresh.
+
+(* The reported maximum depth IS the depth of the document tree: for every document body (forest of
+   nodes) that the enforcer accepts, max_depth of the report equals the nesting depth of the forest
+   (scalars and aliases 0, a container one more than its deepest child), hence accepted => tree depth
+   within Budget::max_depth. *)
+Theorem C07_reported_depth_is_tree_depth : forall b f e',
+  run (enforcer_new b false) (raws (lin_forest f)) = (e', None) -> fdepth f <= USIZE_MAX ->
+  r_max_depth (e_report e') = fdepth f /\ fdepth f <= max_depth b.
+Proof. exact accepted_depth_is_tree_depth. Qed.
+Check C07_reported_depth_is_tree_depth : forall b f e',
+  run (enforcer_new b false) (raws (lin_forest f)) = (e', None) -> fdepth f <= USIZE_MAX ->
+  r_max_depth (e_report e') = fdepth f /\ fdepth f <= max_depth b.
+Print Assumptions C07_reported_depth_is_tree_depth.
